@@ -487,9 +487,16 @@ pub fn c15(g: &mut G) {
         let mut calls: Vec<Call> = vec![];
         for (j, w) in words.iter().enumerate() {
             calls.push(Call::Ins(w.clone(), 3 + j as u64));
-            if j >= 2 && rng.chance(1, 2) {
+            // none, one or several rejected items in a row (each call of extend_iter ends at one)
+            while j >= 1 && rng.chance(1, 2) {
                 let back = rng.below(j as u64 + 1) as usize;
-                calls.push(Call::Ins(words[j - back].clone(), rng.below(9)));
+                let mut k = words[j - back].clone();
+                if rng.chance(1, 2) {
+                    k.push(b'a'); // between an earlier key and the last accepted one
+                }
+                if k <= *w {
+                    calls.push(Call::Ins(k, rng.below(9)));
+                }
             }
         }
         g.emit(build_line("map_iter_resume", 0, "default", "resume", &calls));
